@@ -226,6 +226,14 @@ impl ObjectStore for ScriptedObjectStore {
                             ev["deltas"] = json!(ds.iter().map(|d| json!([d.key, obs(&d.value)])).collect::<Vec<_>>());
                         }
                     }
+                    if kind == "ckpt" {
+                        // which keys the checkpoint holds (a checkpoint is outside every compaction, like a segment that was not selected)
+                        if let Ok(cd) = redis_sim::streaming::CheckpointReader::open(data).and_then(|r| r.load()) {
+                            let mut ks: Vec<&String> = cd.state.keys().collect();
+                            ks.sort();
+                            ev["ckeys"] = json!(ks);
+                        }
+                    }
                     Ok(())
                 }
                 Some("partial") => {
